@@ -48,7 +48,7 @@ OpBatch(cfg, inBag) ==
 (* ---- Layer P: "" when the property holds on what has been observed, else the reason ---- *)
 WmsIn(s) == {i \in 1..Len(s) : IsWm(s[i])}
 
-CONSTANT Check      \* the set of property tags whose clauses are evaluated: a subset of {"C15","C16","C17","C18"}
+CONSTANT Check      \* the set of property tags whose clauses are evaluated: a subset of {"C15","C16","C17","C18",...}; "C15F" = only the final-consolidation clause of C15
 
 PFail(cfg, ins, outsBefore, stepOut, done) ==
   LET outs == outsBefore \o stepOut
@@ -60,7 +60,7 @@ PFail(cfg, ins, outsBefore, stepOut, done) ==
   ELSE IF Chk("C18") /\ ~NoLate(outs) THEN "C18: record emitted at or below a watermark already forwarded"
   ELSE IF Chk("C15") /\ cfg.op = "limit" /\ ~LimitOk(cfg, ins, outs) THEN "C15: limit did not forward exactly the input up to its n-th record"
   ELSE IF Chk("C15") /\ cfg.op = "orderby" /\ ~InOrder(cfg, outs) THEN "C15: order by emitted rows out of order"
-  ELSE IF (Chk("C15") \/ (Chk("C16") /\ cfg.op = "gb")) /\ cfg.op # "limit" /\ done /\ Consol(outs) # Norm(OpBatch(cfg, Consol(ins)))
+  ELSE IF (Chk("C15") \/ Chk("C15F") \/ (Chk("C16") /\ cfg.op = "gb")) /\ cfg.op # "limit" /\ done /\ Consol(outs) # Norm(OpBatch(cfg, Consol(ins)))
        THEN (IF cfg.op = "gb" THEN "C16: final consolidated output differs from the batch GROUP BY"
              ELSE "C15: final consolidated output differs from the operator applied to the consolidated input")
   ELSE IF Chk("C17") /\ cfg.op = "gb" /\ ~cfg.simple /\ cfg.ktidx # 0 /\ HasKind(cfg, "wm") /\ ~done /\
